@@ -97,7 +97,7 @@ def decode(
 
     try:
         claims: Claims = json.loads(payload, cls=decoder_cls)
-    except (TypeError, ValueError):
+    except (TypeError, ValueError, RecursionError):
         raise InvalidPayloadError()
 
     # the JWT Claims Set MUST be a JSON object
